@@ -36,20 +36,24 @@ var (
 	pBne  = u.F("pBne", "", "B,error", u.Name("n")) // named value whose constructor may fail
 	iBnO  = u.F("iBnO", "{B@n?}", "")
 
-	fG1  = u.F("fG1", "", "A", u.Group("g"))
-	fG1b = u.F("fG1b", "", "A", u.Group("g"))
-	fG2  = u.F("fG2", "", "{A+g;A+g}")
-	fFl0 = u.F("fFl0", "", "[A]", u.GroupFlat("g", 0))
-	fFl1 = u.F("fFl1", "", "[A]", u.GroupFlat("g", 1))
-	fFl2 = u.F("fFl2", "", "[A]", u.GroupFlat("g", 2))
-	fFlo = u.F("fFlo", "", "{[A]+g!2}")
-	fAs  = u.F("fAs", "", "A", u.Group("g"), u.As("IA"))
-	fH   = u.F("fH", "", "A", u.Group("h"))
-	fBg  = u.F("fBg", "", "B", u.Group("g"))
-	iGI  = u.F("iGI", "{IA*g}", "")
-	iGH  = u.F("iGH", "{A*h}", "")
-	iGB  = u.F("iGB", "{B*g}", "")
-	iGG  = u.F("iGG", "{A*g;A*g}", "")
+	fG1   = u.F("fG1", "", "A", u.Group("g"))
+	fG1b  = u.F("fG1b", "", "A", u.Group("g"))
+	fG2   = u.F("fG2", "", "{A+g;A+g}")
+	fFl0  = u.F("fFl0", "", "[A]", u.GroupFlat("g", 0))
+	fFl1  = u.F("fFl1", "", "[A]", u.GroupFlat("g", 1))
+	fFl2  = u.F("fFl2", "", "[A]", u.GroupFlat("g", 2))
+	fFlo  = u.F("fFlo", "", "{[A]+g!2}")
+	fAs   = u.F("fAs", "", "A", u.Group("g"), u.As("IA"))
+	fH    = u.F("fH", "", "A", u.Group("h"))
+	fBg   = u.F("fBg", "", "B", u.Group("g"))
+	fGdep = u.F("fGdep", "B", "A", u.Group("g"))   // member of g that needs B
+	pB0b  = u.F("pB0b", "", "B")                   // a second provider of B
+	fGH   = u.F("fGH", "{A*h}", "A", u.Group("g")) // member of g that consumes group h
+	fHb   = u.F("fHb", "", "A", u.Group("h"))
+	iGI   = u.F("iGI", "{IA*g}", "")
+	iGH   = u.F("iGH", "{A*h}", "")
+	iGB   = u.F("iGB", "{B*g}", "")
+	iGG   = u.F("iGG", "{A*g;A*g}", "")
 
 	pMB   = u.F("pMB", "", "{B;A+g}")   // multi-result: B and a member of g
 	pMC   = u.F("pMC", "", "{C;A+h}")   // multi-result: C and a member of h
@@ -66,6 +70,7 @@ var (
 	iSN2  = u.F("iSN2", "{A*g~;{A*h~;B}}", "") // soft group before a nested object that has a soft group and needs B
 	iSN3  = u.F("iSN3", "{A*g~;{B}}", "")
 	iSN4  = u.F("iSN4", "{{A*h~;B};A*g~}", "")
+	pXsh  = u.F("pXsh", "{A*g~}", "{C;A+h}")    // soft view of g, feeder of h
 	pCsn  = u.F("pCsn", "{A*g~;{A*h~;B}}", "C") // the same shape as a constructor's parameters
 )
 
@@ -301,10 +306,32 @@ func c10Units(tier string) []Unit {
 			name = "fork"
 		}
 		sc := []int{0, 1, 2}
-		add(name+"/plain", h.Config{}, nil, pre, alpha{scopes: sc, ctors: []*uFunc{fG1, fG2, fH, fBg}, export: true,
-			invokes: []*uFunc{iG, iGH}}, d, b)
+		if q {
+			// quick: the other-group and other-type bystanders in two smaller alphabets
+			add(name+"/plain", h.Config{}, nil, pre, alpha{scopes: sc, ctors: []*uFunc{fG1, fG2, fH}, export: true,
+				invokes: []*uFunc{iG, iGH}}, d, b)
+			add(name+"/plain-other-type", h.Config{}, nil, pre, alpha{scopes: sc, ctors: []*uFunc{fG1, fBg}, export: true,
+				invokes: []*uFunc{iG, iGB}}, d, b)
+		} else {
+			add(name+"/plain", h.Config{}, nil, pre, alpha{scopes: sc, ctors: []*uFunc{fG1, fG2, fH, fBg}, export: true,
+				invokes: []*uFunc{iG, iGH, iGB}}, d, b)
+		}
 		add(name+"/consumer-constructor", h.Config{}, nil, pre, alpha{scopes: sc, ctors: []*uFunc{fG1, fG1b, pG}, export: true,
 			invokes: []*uFunc{iG, iC}}, d, b)
+	}
+	// feeders with dependencies of their own (a plain value with providers at
+	// several levels, another value group): they resolve from the scope they
+	// were provided to, whichever scope asks for the group first
+	bd := explore.Budget{Provides: 3, Invokes: 1, Rejected: 0}
+	for _, pre := range [][]Op{prefixChain, prefixFork} {
+		name := "chain"
+		if pre[1].Scope == 0 {
+			name = "fork"
+		}
+		add(name+"/feeder-needs-value", h.Config{}, nil, pre, alpha{scopes: []int{0, 1, 2}, ctors: []*uFunc{fGdep, pB0, pB0b}, export: true,
+			invokes: []*uFunc{iG}}, 4, bd)
+		add(name+"/feeder-needs-group", h.Config{}, nil, pre, alpha{scopes: []int{0, 1, 2}, ctors: []*uFunc{fGH, fH, fHb}, export: true,
+			invokes: []*uFunc{iG}}, 4, bd)
 	}
 	add("flatten", h.Config{}, nil, prefixChild, alpha{scopes: []int{0, 1}, ctors: []*uFunc{fG1, fFl0, fFl1, fFl2, fFlo}, export: true,
 		invokes: []*uFunc{iG, iGG}}, d, b)
@@ -389,6 +416,11 @@ func c11Units(tier string) []Unit {
 		invokes: []*uFunc{iS3a, iS3b, iS3c, iSH, iGs, iB}}, d, b)
 	add("nested-objects", h.Config{}, nil, nil, alpha{scopes: []int{0}, ctors: []*uFunc{pMB, pMC, fG1, pCsn},
 		invokes: []*uFunc{iSN, iSN2, iSN3, iSN4, iC, iGs}}, d, b)
+	// a constructor with a soft view of g that is itself a feeder of h, reached
+	// first through a hard consumer of h from another scope (Export): its soft
+	// group is what its own scope sees
+	add("soft-param-of-exported-feeder", h.Config{}, nil, prefixFork, alpha{scopes: []int{0, 1, 2}, ctors: []*uFunc{pXsh, pMB}, export: true,
+		invokes: []*uFunc{iB, iGH, iC}}, 5, explore.Budget{Provides: 2, Invokes: 3, Rejected: 0})
 	add("two-groups-scoped", h.Config{}, nil, prefixChild, alpha{scopes: []int{0, 1}, ctors: []*uFunc{pMB, pMC, fH}, export: true,
 		invokes: []*uFunc{iSH, iS1, iGH, iC}}, d, b)
 	if !q {
@@ -460,6 +492,18 @@ func c12Units(tier string) []Unit {
 			plans := map[string][]u.Beh{"dAe": {beh, u.BehOK}}
 			add(fmt.Sprintf("one-fault/%v", beh), h.Config{Recover: true}, plans, prefixChild, alpha{scopes: []int{0, 1}, ctors: []*uFunc{pA, pB},
 				decos: []*uFunc{dAe, dA}, invokes: []*uFunc{iA, iB}}, d, b)
+		}
+	}
+	// a decorator (single key, group) whose first run fails is still the one
+	// that supplies the key afterwards: never the undecorated value
+	for _, beh := range []u.Beh{u.BehErr, u.BehPanic} {
+		for _, rec := range []bool{false, true} {
+			if beh == u.BehErr && rec {
+				continue
+			}
+			plans := map[string][]u.Beh{"dAe": {beh, u.BehOK}, "dGe": {beh, u.BehOK}}
+			add(fmt.Sprintf("failed-decorator-still-applies/%v/recover=%v", beh, rec), h.Config{Recover: rec}, plans, prefixChild, alpha{scopes: []int{0, 1}, ctors: []*uFunc{pA, fG1},
+				decos: []*uFunc{dAe, dGe}, invokes: []*uFunc{iA, iG}}, 6, explore.Budget{Provides: 2, Decorates: 2, Invokes: 3, Rejected: 0})
 		}
 	}
 	return get()
